@@ -1649,6 +1649,21 @@ theorem c16_src_ShardStateUnsplit (v : Val) (f : Frag) (he : shardStateUnsplit.e
     SrcBlk.ShardStateUnsplit false (f ++ k) = some (Blk.view_ShardStateUnsplit v, k) :=
   Blk.refines_ShardStateUnsplit.on_encoding v f he hv k
 
+/-- `ShardState.deserialize` (`preload_bytes(4)` dispatch: `split_state#5f327da5` ↦ two `^ShardStateUnsplit`; otherwise the slice is an
+    unsplit state, parsed with its own tag), regenerated from the source: every field, exact consumption. -/
+theorem c16_src_ShardState (v : Val) (f : Frag) (he : shardState.enc v = some f) (hv : v.noVar = true) (k : Frag) :
+    SrcBlk.ShardState false (f ++ k) = some (Blk.view_ShardState v, k) :=
+  Blk.refines_ShardState.on_encoding v f he hv k
+
+/-- `McBlockExtra.deserialize` (`masterchain_block_extra#cca5`: `key_block`, shard hashes, ShardFees = `load_maybe_ref()` + the two
+    CurrencyCollections of its top-level extra, the `^[ … ]` group — `prev_blk_signatures` read without a value_deserializer, the two
+    `Maybe ^InMsg` kept as cells —, `config` iff `key_block`), regenerated from the source: every field with its encoded value,
+    exactly the encoded bits and refs consumed.  Declared: `shard_fees` (the root cell of a dictionary the parser does not walk) and the
+    raw Slices of `prev_blk_signatures` are compared by presence only. -/
+theorem c16_src_McBlockExtra (v : Val) (f : Frag) (he : mcBlockExtra.enc v = some f) (k : Frag) :
+    SrcBlk.McBlockExtra false (f ++ k) = some (Blk.view_McBlockExtra v, k) :=
+  Blk.refines_McBlockExtra.on_encoding v f he k
+
 /-- the hand model of `deserialize_shard_hashes` + `BinTree.deserialize` (`Rd.loadShardHashes`; source text pinned by the translator)
     against `HashmapE 32 ^(BinTree X)`: `None` / the dict of BinTree objects whose `.list` holds the leaves left to right, each parsed by
     a leaf reader that agrees with `X`; exact consumption. -/
